@@ -193,11 +193,12 @@ fn command_go(
 
     let mut time = None;
 
-    if wtime.is_some() && btime.is_some() && winc.is_some() && binc.is_some() {
+    // GUIs leave out the increment fields when there is no increment
+    if wtime.is_some() && btime.is_some() {
         let wtime = wtime.unwrap();
         let btime = btime.unwrap();
-        let winc = winc.unwrap();
-        let binc = binc.unwrap();
+        let winc = winc.unwrap_or(0);
+        let binc = binc.unwrap_or(0);
 
         // We decrease the time to make sure we never run out
         // Never underflow on a low clock, and never think longer than the clock allows
